@@ -46,8 +46,12 @@ int __wrap_regexec(const regex_t *preg, const char *s, size_t nmatch, regmatch_t
 #define VFD0 1000          /* clients 1000.., device sockets 2000.. */
 #define DFD0 2000
 #define MAXFD 4096
-static int nacc = 0, nsock = 0, k_acc = 0, k_connect = 0, k_soerr = 0; static long k_hup = -1;
-static struct { int rev, rk, cap, len, off, reads, readres, wlen, werr, wblock, writes, nonblock, rblock; unsigned char data[4096], w[1<<17]; } K[MAXFD];
+static int nacc = 0, nsock = 0, k_acc = 0, k_connect = 0, k_soerr = 0; static long k_hup = -1; static int k_wstat = SIGTERM;   /* how a reaped coprocess ended: raw wait status (W<n> in the op) */
+static struct { int rev, rk, cap, len, off, reads, readres, wlen, werr, wblock, writes, nonblock, rblock; unsigned char data[4096], *w; } K[MAXFD];
+#define WMAX (1 << 21)      /* what one descriptor can take in one pass: allocated on first use */
+#include <sys/mman.h>
+/* outside the heap: the live-heap ledger of the steady-state layer counts the daemon's allocations, not the simulated kernel's */
+#define WBUF(k) ((k)->w ? (k)->w : ((k)->w = mmap(NULL, WMAX, PROT_READ | PROT_WRITE, MAP_PRIVATE | MAP_ANONYMOUS, -1, 0)))
 #define KK(fd) (&K[(fd) - VFD0])
 /* a descriptor is blocking until fcntl(F_SETFL, O_NONBLOCK), as in the kernel */
 int __real_close(int fd); ssize_t __real_read(int, void *, size_t); ssize_t __real_write(int, const void *, size_t); int __real_fcntl(int fd, int cmd, ...);
@@ -63,7 +67,7 @@ int __wrap_kill(pid_t pid, int sig){ printf("Y kill %d %d\n", (int)pid, sig); re
 /* a child that was sent SIGTERM a moment ago has not exited yet: only a waitpid() that really waits reaps it; with WNOHANG the call
    returns 0, nothing is reaped and the child becomes a zombie when it dies (the line differs from the model's, the predicates see
    a child that is never waited for) */
-pid_t __wrap_waitpid(pid_t pid, int *wstat, int opt){ if (opt & WNOHANG) { printf("Y waitpid-nohang %d\n", (int)pid); return 0; } printf("Y waitpid %d\n", (int)pid); if (wstat) *wstat = SIGTERM; return pid; }
+pid_t __wrap_waitpid(pid_t pid, int *wstat, int opt){ if (opt & WNOHANG) { printf("Y waitpid-nohang %d\n", (int)pid); return 0; } printf("Y waitpid %d\n", (int)pid); if (wstat) *wstat = k_wstat; return pid; }
 int __wrap_setsockopt(int fd, int l, int o, const void *v, socklen_t n){ return 0; }
 int __wrap_connect(int fd, const struct sockaddr *a, socklen_t n){ printf("Y connect %d%s\n", k_connect, (!KK(fd)->nonblock) ? " BLOCKS" : ""); if (k_connect == 0) return 0; errno = k_connect == 1 ? EINPROGRESS : ENETUNREACH; return -1; }
 int __wrap_getsockopt(int fd, int l, int o, void *v, socklen_t *n){ printf("Y soerr %d\n", k_soerr); *(int *)v = k_soerr ? ECONNREFUSED : 0; return 0; }
@@ -71,6 +75,9 @@ int __wrap_fcntl(int fd, int cmd, long arg){ if (fd >= VFD0) { if (cmd == F_GETF
 int __wrap_close(int fd){ if (fd >= VFD0) { printf("Y close %d\n", fd); return 0; } return __real_close(fd); }
 ssize_t __wrap_read(int fd, void *b, size_t n){ if (fd < VFD0) return __real_read(fd, b, n);
     typeof(K[0]) *k = KK(fd); k->reads++;
+    /* rk 3: the kernel holds exactly as many bytes as the first read of this pass asks for (cbuf reads in two pieces: up to the
+       physical end of its ring, then the wrapped part - the second read finds nothing) */
+    if (k->reads == 1 && k->rk == 3 && (size_t)k->len > n) k->len = n;
     if (k->reads == 1 && k->rk == 1) { k->readres = -1; errno = EIO; return -1; }
     if (k->reads == 1 && k->rk == 2) { k->readres = 0; return 0; }
     if (k->off >= k->len) { if (k->reads == 1) k->readres = -1; if ((!k->nonblock)) k->rblock = 1; errno = EAGAIN; return -1; }   /* on a blocking descriptor the daemon would sleep here */
@@ -79,12 +86,16 @@ ssize_t __wrap_write(int fd, const void *b, size_t n){ if (fd < VFD0) return __r
     typeof(K[0]) *k = KK(fd); k->writes++;
     /* capacity -2: the kernel takes the first piece offered in this pass whole and has no room for a second one (a wrapped
        ring buffer is written in two pieces); the driver rewrites the recorded op to the equivalent byte count afterwards */
-    if (k->cap == -2) { if (k->writes > 1 && !(!k->nonblock)) { errno = EAGAIN; return -1; } memcpy(k->w + k->wlen, b, n); k->wlen += n; return n; }
-    if (k->cap < 0) { if (fd >= DFD0) { memcpy(k->w + k->wlen, b, n); k->wlen += n; } k->werr = 1; errno = EPIPE; return -1; }
+    if (k->cap == -2) { if (k->writes > 1 && !(!k->nonblock)) { errno = EAGAIN; return -1; } memcpy(WBUF(k) + k->wlen, b, n); k->wlen += n; return n; }
+    if (k->cap < 0) { if (fd >= DFD0) { memcpy(WBUF(k) + k->wlen, b, n); k->wlen += n; } k->werr = 1;
+        /* the kernel sends SIGPIPE with EPIPE: unless main() had it ignored, the daemon dies here */
+        { struct sigaction sa; sigaction(SIGPIPE, NULL, &sa); if (sa.sa_handler == SIG_DFL) { fflush(stdout); fprintf(stderr, "SIGPIPE: write to a closed peer with the default disposition\n"); raise(SIGPIPE); } }
+        errno = EPIPE; return -1; }
     size_t m = n;
+    if (k->wlen + n > WMAX) { fflush(stdout); fprintf(stderr, "HARNESS: more than %d bytes written to one descriptor in one pass\n", WMAX); _exit(97); }
     if ((!k->nonblock)) { if ((size_t)k->cap < n) { k->wblock = 1; k->cap = 0; } else k->cap -= n; }   /* capacity is per pass, a wrapped cbuf issues two calls */
     else { if ((size_t)k->cap == 0) { errno = EAGAIN; return -1; } if (m > (size_t)k->cap) m = k->cap; k->cap -= m; }
-    memcpy(k->w + k->wlen, b, m); k->wlen += m; return m; }
+    memcpy(WBUF(k) + k->wlen, b, m); k->wlen += m; return m; }
 int __real_poll(struct pollfd *fds, nfds_t n, int tmo);
 int __wrap_poll(struct pollfd *fds, nfds_t n, int tmo){ int r = 0;
     for (int want = LFD; want < DFD0 + 1000 + 2*npair; want++) for (nfds_t i = 0; i < n; i++) if (fds[i].fd == want)
@@ -174,13 +185,14 @@ static int read_op(void){
     while (line[0] == 'J') { cli_id_seq = atoi(line + 2); if (!fgets(line, sizeof line, stdin)) { fflush(stdout); _exit(0); } }
     char op = line[0];
     EACHK(i) K[i].rev = 0; K[i].rk = 0; K[i].cap = 1 << 30; K[i].len = K[i].off = K[i].reads = K[i].readres = K[i].wlen = K[i].werr = K[i].wblock = K[i].writes = K[i].rblock = 0; }
-    k_acc = 0; k_hup = -1;
+    k_acc = 0; k_hup = -1; k_wstat = SIGTERM;
     char *tok = strtok(line + 1, " \n");
     if (tok) { long now = atol(tok); vt_us = 1000000000L + now;
         if (op != 'I') { tok = strtok(NULL, " \n"); k_acc = atoi(tok); }
         tok = strtok(NULL, " \n"); k_connect = atoi(tok); tok = strtok(NULL, " \n"); k_soerr = atoi(tok);
         while ((tok = strtok(NULL, " \n"))) { int fd, rev, rk, cap; static char hex[8300];
-            if (tok[0] == 'H') { k_hup = atol(tok + 1); vt_us -= k_hup; continue; }    /* H<d>: the sleep is interrupted by SIGHUP d us after it began; `now` is the time poll finally returns */
+            if (tok[0] == 'H') { k_hup = atol(tok + 1); vt_us -= k_hup; continue; }
+            if (tok[0] == 'W') { k_wstat = atoi(tok + 1); continue; }    /* H<d>: the sleep is interrupted by SIGHUP d us after it began; `now` is the time poll finally returns */
             sscanf(tok, "%d:%d:%d:%8200[^:]:%d", &fd, &rev, &rk, hex, &cap);
             typeof(K[0]) *k = KK(fd); k->rev = rev; k->rk = rk; k->cap = cap; k->len = unhex(hex, k->data); } }
     return op;
@@ -189,7 +201,7 @@ static void end_of_pass(struct timeval *tv){
     logrx = 0;
     EACHK(i)
         if (K[i].reads) printf("Y read %d %d%s\n", VFD0 + i, K[i].readres, K[i].rblock ? " BLOCKS" : "");
-        if (K[i].writes) { printf("Y write %d ", VFD0 + i); hexout(K[i].w, K[i].wlen); printf(" %s%s\n", K[i].werr ? "E" : "ok", K[i].wblock ? " BLOCKS" : ""); } }
+        if (K[i].writes) { printf("Y write %d ", VFD0 + i); hexout(K[i].w ? K[i].w : (unsigned char *)"", K[i].wlen); printf(" %s%s\n", K[i].werr ? "E" : "ok", K[i].wblock ? " BLOCKS" : ""); } }
     static struct timeval none; timerclear(&none);
     dump(last_op == 'P' ? (tv ? tv : &none) : NULL); printf(".\n"); fflush(stdout);
 }
